@@ -81,6 +81,10 @@ def at(seq, i):
     return seq[i]
 
 
+def lcat(a, b):
+    return list(a) + list(b)
+
+
 def append(seq, x):
     return list(seq) + [x]
 
